@@ -357,7 +357,7 @@ func main() {
 	sort.SliceStable(c.Viol, func(i, j int) bool { return len(fmt.Sprint(c.Viol[i].Case)) < len(fmt.Sprint(c.Viol[j].Case)) })
 	concrete := 0
 	for _, v := range c.Viol {
-		if v.Kind != "proof" {
+		if v.Kind != "proof" && v.Kind != "correspondence" {
 			concrete++
 		}
 	}
@@ -382,7 +382,7 @@ func main() {
 			continue
 		}
 		unknownCount++
-		if v.Kind == "proof" && concrete > 0 {
+		if (v.Kind == "proof" || v.Kind == "correspondence") && concrete > 0 {
 			continue // a concrete failing input is reported instead
 		}
 		if reported >= 5 {
@@ -394,7 +394,7 @@ func main() {
 		path := filepath.Join(*root, "replays", fmt.Sprintf("%s-%s.json", *prop, hex.EncodeToString(sum[:6])))
 		os.WriteFile(path, b, 0o644)
 		v.Replay = path
-		if v.Kind == "proof" {
+		if v.Kind == "proof" || v.Kind == "correspondence" {
 			fmt.Printf("VIOLATION property=%s replay=%s no-failing-input-found\n", *prop, path)
 		} else {
 			fmt.Printf("VIOLATION property=%s replay=%s\n", *prop, path)
